@@ -189,6 +189,34 @@ func intervalBurst(ctx context.Context, c hooks, cfg *config.Config, r *emit.Ran
 	return nil
 }
 
+// configChangeOverLimit: every run-time setting is changed while the cache is AT/OVER its limit,
+// then the cache must still serve operations (a listener that evicts/cleans must not wait for itself).
+func configChangeOverLimit(ctx context.Context, c hooks, cfg *config.Config, r *emit.Rand) error {
+	for i := 0; i < 3; i++ {
+		// limit 1000: 600 (under), 1200 (over, the check happens before the store), third store evicts
+		k := cache.FromString(fmt.Sprintf("over-%d", i))
+		if e, err := c.Cache(k, body(600, 'o'), time.Now().Add(time.Hour), meta{}); err == nil && e.Data != nil {
+			e.Data.Close()
+		}
+		cfg.Cache.Memory.MemoryBudgetPercent.Overwrite(30 + i)
+		cfg.Cache.MaxCacheSize.Overwrite(bytesize.ByteSize(int64(900 - 100*i)))
+		cfg.Cache.CleanupInterval.Overwrite(duration.Duration(time.Duration(2+i) * time.Millisecond))
+		time.Sleep(3 * time.Millisecond) // listeners run in their own goroutines
+		if e, err := c.Get(k); err == nil && e.Data != nil {
+			e.Data.Close()
+		}
+		c.GetMetadata(k)
+	}
+	cfg.Cache.Memory.MemoryBudgetPercent.Overwrite(0) // accepted boundary value
+	time.Sleep(3 * time.Millisecond)
+	k := cache.FromString("after-zero-budget")
+	if e, err := c.Cache(k, body(10, 'z'), time.Now().Add(time.Hour), meta{}); err == nil && e.Data != nil {
+		e.Data.Close()
+	}
+	c.Delete(k)
+	return nil
+}
+
 func main() {
 	flag.Parse()
 	slog.SetDefault(slog.New(slog.NewTextHandler(io.Discard, nil)))
@@ -209,7 +237,8 @@ func main() {
 					scenario{Name: "store-evict-same-shard", Backend: b, Shards: n, run: storeEvictSameShard, timeout: 10 * time.Second},
 					scenario{Name: "mixed-concurrent", Backend: b, Shards: n, run: mixedConcurrent, timeout: 40 * time.Second},
 					scenario{Name: "destroy-during-cycle", Backend: b, Shards: n, run: destroyDuringCycle, timeout: 10 * time.Second},
-					scenario{Name: "interval-burst", Backend: b, Shards: n, run: intervalBurst, timeout: 15 * time.Second})
+					scenario{Name: "interval-burst", Backend: b, Shards: n, run: intervalBurst, timeout: 15 * time.Second},
+					scenario{Name: "config-change-over-limit", Backend: b, Shards: n, run: configChangeOverLimit, timeout: 10 * time.Second})
 			}
 		}
 	}
